@@ -659,4 +659,170 @@ theorem search_sim (hE : PEnvOK e) {fuel : Nat} : ∀ (rows : List Int) (X : Lis
       obtain ⟨ps2, X2, g2, hS2, hP2⟩ := search_sim hE rows X1 ps1 cs1 cs' hS1 hP1 (fun r hr' => hr r (mem_cons_of_mem _ hr')) h
       exact ⟨ps2, X2, by simp only [search, g1]; exact g2, hS2, hP2⟩
 
+/-! ### the companion state at the entry of a panel column, and the column theorem -/
+
+/-- the column_dfs state that accompanies the panel state at the entry of a column: same stack arrays,
+clean `repfnz`, no row marked, room in `lsub` for every unpivoted row, empty `segrep` -/
+def companion (e : Env) (ps : St) : ColDfs.St :=
+  { lsub := (e.lsub.toList ++ List.replicate (ColDfs.unpivoted e.m e.perm_r).length 0).toArray
+    marker := (List.replicate (3 * e.m).toNat (e.jcol - 1)).toArray
+    repfnz := (List.replicate e.jcol.toNat EMPTY).toArray
+    parent := ps.parent, xplore := ps.xplore
+    segrep := (List.replicate e.jcol.toNat 0).toArray
+    nseg := 0, nextl := e.lsub.size, jsuper := 0 }
+
+theorem rd_replicate {n : Nat} {v i : Int} (h0 : 0 ≤ i) (h1 : i < n) : rd (List.replicate n v).toArray i = v := by
+  unfold rd
+  simp only [h0, if_true, Array.getD_eq_getD_getElem?, List.getElem?_toArray, List.getElem?_replicate]
+  have : i.toNat < n := by omega
+  simp [this]
+
+theorem rd_append_left {a : Array Int} {l : List Int} {i : Int} (h0 : 0 ≤ i) (h1 : i < a.size) :
+    rd (a.toList ++ l).toArray i = rd a i := by
+  unfold rd
+  simp only [h0, if_true, Array.getD_eq_getD_getElem?, List.getElem?_toArray]
+  rw [List.getElem?_append_left (by simp; omega)]
+  simp
+
+/-- what a panel column needs on entry (the shared-marker state): its `repfnz` slice is clean, no row carries
+its mark, `segrep[0..nseg)` lists distinct representatives, all recorded for this panel (`marker1 >= jcol`) -/
+structure ColOK (e : Env) (ps : St) : Prop where
+  env : PEnvOK e
+  szM : (ps.marker.size : Int) = 3 * e.m
+  szR : e.off + e.m ≤ ps.repfnz.size
+  szP : e.jcol ≤ ps.parent.size
+  szX : e.jcol ≤ ps.xplore.size
+  szS : e.jcol ≤ ps.segrep.size
+  fresh : ∀ s, 0 ≤ s → s < e.jcol → fnz e ps s = EMPTY
+  unmarked : ∀ r, 0 ≤ r → r < e.m → rd ps.marker r ≠ e.jj
+  nseg0 : 0 ≤ ps.nseg
+  sgnd : (slice ps.segrep 0 ps.nseg).Nodup
+  sgrng : ∀ t ∈ slice ps.segrep 0 ps.nseg, 0 ≤ t ∧ t < e.jcol ∧ e.jcol ≤ m1 e ps t
+
+variable {ps : St}
+
+theorem companion_mk2 (hC : ColOK e ps) {r : Int} (r0 : 0 ≤ r) (r1 : r < e.m) : mk2 e.cenv (companion e ps) r = e.jcol - 1 := by
+  unfold mk2
+  show rd (List.replicate (3 * e.m).toNat (e.jcol - 1)).toArray (2 * e.m + r) = _
+  exact rd_replicate (by omega) (by omega)
+
+theorem companion_sim (hC : ColOK e ps) :
+    Sim e (m1 e ps) (slice ps.segrep 0 ps.nseg) ps.nseg 0 [] ps (companion e ps) where
+  lsub := fun x x0 x1 => rd_append_left x0 x1
+  nextl := le_refl _
+  szM := hC.szM
+  szMc := by
+    have := hC.env.env.m0
+    show (((List.replicate (3 * e.m).toNat (e.jcol - 1)).toArray.size : Nat) : Int) = 3 * e.m
+    simp; exact this
+  mark := fun r r0 r1 => by
+    rw [companion_mk2 hC r0 r1]
+    constructor
+    · intro h; exact absurd h (hC.unmarked r r0 r1)
+    · intro h; omega
+  szR := hC.szR
+  szRc := by
+    have := hC.env.env.jcol0
+    show e.jcol ≤ (((List.replicate e.jcol.toNat EMPTY).toArray.size : Nat) : Int)
+    simp
+  fnz := fun s s0 s1 => by
+    rw [hC.fresh s s0 s1]
+    show _ = rd (List.replicate e.jcol.toNat EMPTY).toArray s
+    rw [rd_replicate s0 (by omega)]
+  parent := rfl
+  xplore := rfl
+  szP := hC.szP
+  szX := hC.szX
+  hn0p := ⟨hC.nseg0, le_refl _⟩
+  hn0c := le_refl _
+  cnseg := by show (0 : Int) = 0 + (([] : List Int).length : Int); simp
+  cseg := fun _ => by show slice _ 0 0 = []; exact slice_nil _ _
+  seg := by rw [slice_nil]; rfl
+  m1 := fun t _ _ => by simp [pushNew]
+  sgnd := hC.sgnd
+  sgrng := hC.sgrng
+  szS := hC.szS
+  segpre := rfl
+
+theorem companion_root (hC : ColOK e ps) :
+    ColDfs.Root (e := e.cenv) (L := e.lsub) (nextl0 := e.lsub.size) [] (companion e ps) := by
+  have hj := hC.env.env.jcol0
+  have hm := hC.env.env.m0
+  have hj' : 0 ≤ e.jcol := hj
+  have hm' : 0 ≤ e.m := hm
+  have hnomark : ∀ r, 0 ≤ r → r < e.m → mk2 e.cenv (companion e ps) r ≠ e.cenv.jcol := by
+    intro r r0 r1; rw [companion_mk2 hC r0 r1]; show e.jcol - 1 ≠ e.jcol; omega
+  refine ⟨⟨⟨by omega, ?_, ?_, ?_⟩, fun x x0 x1 => rd_append_left x0 x1, le_refl _, ?_, hC.szP, hC.szX, ?_, ?_, le_refl _⟩,
+    ⟨nodup_nil, by simp, by simp, ?_⟩, ?_, ?_⟩
+  · show (slice (companion e ps).lsub (e.lsub.size : Int) (e.lsub.size : Int)).Nodup
+    rw [slice_nil]; exact nodup_nil
+  · intro r hr
+    have hr' : r ∈ slice (companion e ps).lsub (e.lsub.size : Int) (e.lsub.size : Int) := hr
+    rw [slice_nil] at hr'; simp at hr'
+  · show (e.lsub.size : Int) + _ ≤ (((e.lsub.toList ++ List.replicate (ColDfs.unpivoted e.m e.perm_r).length 0).toArray.size : Nat) : Int)
+    simp
+    rfl
+  · show e.jcol ≤ (((List.replicate e.jcol.toNat EMPTY).toArray.size : Nat) : Int)
+    simp
+  · show (((List.replicate (3 * e.m).toNat (e.jcol - 1)).toArray.size : Nat) : Int) = 3 * e.m
+    simp; exact hm'
+  · intro r r0 r1 hmk; exact absurd hmk (hnomark r r0 r1)
+  · show (0 : Int) + e.jcol ≤ (((List.replicate e.jcol.toNat 0).toArray.size : Nat) : Int) + (([] : List Nat).length : Int)
+    simp
+  · intro t ht hd
+    exfalso; apply hd
+    show rd (List.replicate e.jcol.toNat EMPTY).toArray (t : Int) = EMPTY
+    exact rd_replicate (by omega) (by have : (t : Int) < e.jcol := ht; omega)
+  · intro r r0 r1 hmk; exact absurd hmk (hnomark r r0 r1)
+
+/-- **one panel column = the recursive search, recorded through the shared `marker1`** -/
+theorem panelCol_eq_dfsList (hC : ColOK e ps) {fuel : Nat} (hfuel : (e.jcol.toNat + 1) * (e.lsub.size + 2) ≤ fuel)
+    {rows : List Int} (hrows : ∀ r ∈ rows, 0 ≤ r ∧ r < e.m) :
+    ∃ ps' post, search e fuel rows ps = some ps' ∧
+      post = dfsList (ColDfs.adjR e.cenv e.lsub) e.jcol.toNat ((ColDfs.rootCols e.cenv rows).map (ColDfs.repN e.cenv)) [] ∧
+      (∀ s : Nat, (s : Int) < e.jcol → (fnz e ps' s ≠ EMPTY ↔ s ∈ post)) ∧
+      ps.nseg ≤ ps'.nseg ∧
+      slice ps'.segrep ps.nseg ps'.nseg = (post.reverse.map Int.ofNat).filter (fun t => decide (m1 e ps t < e.jcol)) ∧
+      slice ps'.segrep 0 ps.nseg = slice ps.segrep 0 ps.nseg ∧
+      (∀ t, 0 ≤ t → t < e.jcol → m1 e ps' t =
+        if t ∈ (post.reverse.map Int.ofNat).filter (fun t => decide (m1 e ps t < e.jcol)) then e.jj else m1 e ps t) ∧
+      (slice ps'.segrep 0 ps'.nseg).Nodup ∧
+      (∀ t ∈ slice ps'.segrep 0 ps'.nseg, 0 ≤ t ∧ t < e.jcol ∧ e.jcol ≤ m1 e ps' t) := by
+  have hfuel' : (e.cenv.jcol.toNat + 1) * ColDfs.stepK (e.lsub.size : Int) ≤ fuel := by
+    unfold ColDfs.stepK
+    have : ((e.lsub.size : Int)).toNat = e.lsub.size := by omega
+    rw [this]; exact hfuel
+  obtain ⟨cs', post', hs, hR', hSeg, hp, _⟩ := ColDfs.search_spec hC.env.env (adj := ColDfs.adjR e.cenv e.lsub)
+    (fun s h1 h2 => ColDfs.adjR_eq _ _ s h1 h2) hfuel' rows (companion e ps) [] (companion_root hC) hrows
+  have hP0 : PInv e ps := fun t t0 t1 ht => absurd (hC.fresh t t0 t1) ht
+  obtain ⟨ps', X', g, hS', _⟩ := search_sim hC.env rows [] ps _ cs' (companion_sim hC) hP0 hrows hs
+  obtain ⟨nw, n1, n2, n3⟩ := hSeg.new
+  rw [append_nil] at n1
+  subst n1
+  have hlen : post'.length ≤ e.jcol.toNat := ColDfs.nodup_lt_length hR'.pok.nodup (fun t ht => by
+    have : (t : Int) < e.jcol := hR'.pok.lt t ht
+    omega)
+  have hcap : cs'.nseg ≤ cs'.segrep.size := by
+    have h1 : cs'.nseg + e.jcol ≤ cs'.segrep.size + post'.length := hR'.pok.cap
+    have := hC.env.env.jcol0
+    have hj : 0 ≤ e.jcol := this
+    omega
+  have hX : X' = post'.reverse.map Int.ofNat := by rw [← hS'.cseg hcap]; exact n3
+  have hXnd : X'.Nodup := by
+    rw [hX]
+    exact Nodup.map_on (fun a _ b _ h => Int.ofNat.inj h) (nodup_reverse.mpr hR'.pok.nodup)
+  have hpn := pushNew_eq_filter e.jcol (m1 e ps) hXnd
+  rw [hX] at hpn
+  refine ⟨ps', post', g, ?_, ?_, hS'.hn0p.2, ?_, hS'.segpre, ?_, hS'.sgnd, hS'.sgrng⟩
+  · rw [hp, dfsList, foldl_map]; rfl
+  · intro s hs'
+    have hj : 0 ≤ e.jcol := hC.env.env.jcol0
+    rw [hS'.fnz s (by omega) hs']
+    constructor
+    · intro hd; exact hR'.fin s hs' hd
+    · intro hin; exact hR'.pok.fin s hin
+  · rw [hS'.seg, hX, hpn]
+  · intro t t0 t1
+    rw [hS'.m1 t t0 t1, hX, hpn]
+
 end Slu.PanelDfs
